@@ -68,6 +68,7 @@ def jPref : PrefAdm → Json
   | .all => jstr "all"
   | .none => jstr "none"
   | .only l => jarr jS l
+  | .malformed => jstr "malformed"
 
 def jKind : DefKind → Json
   | .base => Json.arr #[jstr "base"]
